@@ -25,7 +25,7 @@ Nests == IF NestMode = "few" THEN NestsFew ELSE NestsAll
 Faults == { [kind |-> k, pad |-> p, pre |-> 0] : k \in {"parse", "runtime"}, p \in {0, 3} }
           \cup { [kind |-> "linemacro", pad |-> 0, pre |-> 0], [kind |-> "linemacroeol", pad |-> 3, pre |-> 0] }
           \cup { [kind |-> k, pad |-> 0, pre |-> 1] : k \in {"parse", "runtime"} }
-          \cup { [kind |-> "runtimeexit", pad |-> 3, pre |-> 0] }
+          \cup { [kind |-> "runtimeexit", pad |-> 3, pre |-> 0], [kind |-> "parsestr", pad |-> 0, pre |-> 0], [kind |-> "runtimeexitstr", pad |-> 3, pre |-> 0] }
 NoSrc == [lay |-> <<>>, crlf |-> FALSE, nest |-> <<>>, fault |-> [kind |-> "none", pad |-> 0, pre |-> 0]]
 
 Init == lay = <<>> /\ done = FALSE /\ src = NoSrc
